@@ -157,7 +157,15 @@ func (d *db) ZScan(ctx context.Context, req *schema.ZScanRequest) (*schema.ZEntr
 		binary.BigEndian.PutUint64(seekKey[len(prefix)+scoreLen+keyLenLen+1+len(req.SeekKey):], req.SeekAtTx)
 	}
 
-	zsnap, err := d.snapshotSince(ctx, []byte{SortedSetKeyPrefix}, req.SinceTx)
+	// The sorted set and the values come from two indexes, hence from two snapshots.
+	// If each of them only had to include req.SinceTx, an older (reused) snapshot of
+	// one index could be combined with a newer one of the other: e.g. a key added to
+	// the set together with a new value (ExecAll) would be returned with its previous
+	// value. Both snapshots are required to include the last committed transaction
+	// instead: the sorted set can not change after it while the read lock is held
+	// (ZAdd and ExecAll take the write lock), so the result is the state of the
+	// database at the transaction the values snapshot was taken at.
+	zsnap, err := d.snapshotSince(ctx, []byte{SortedSetKeyPrefix}, currTxID)
 	if err != nil {
 		return nil, err
 	}
@@ -177,7 +185,7 @@ func (d *db) ZScan(ctx context.Context, req *schema.ZScanRequest) (*schema.ZEntr
 	}
 	defer r.Close()
 
-	kvsnap, err := d.snapshotSince(ctx, []byte{SetKeyPrefix}, req.SinceTx)
+	kvsnap, err := d.snapshotSince(ctx, []byte{SetKeyPrefix}, currTxID)
 	if err != nil {
 		return nil, err
 	}
